@@ -380,6 +380,7 @@ func (v *Verifier) verifyCase(fi *FuncInfo, con *Contract, rep *FuncReport, case
 		default:
 			panic(unsupportedf(fi.Decl.Pos(), "break/continue escaped function body"))
 		}
+		v.runDefers(fr, o)
 		nret++
 		// postconditions see the entry values of by-value parameters (Go parameters are mutable)
 		o = o.fork()
@@ -698,7 +699,7 @@ func (v *Verifier) heapFrameFormula(st *State, k string) *Term {
 	r := c.Bound("r", IntSort)
 	var cov []*Term
 	if strings.HasPrefix(k, "G:") {
-		if k == gBigBits || k == gAtomic || k == gBigVal {
+		if k == gBigBits || k == gAtomic || k == gBigVal || k == gReleased {
 			cov = append(cov, c.ILt(c.Inti(0), r)) // objects allocated during the call
 		}
 		if k == gChanLen || k == gChanData || k == gChanMsgs || k == gRdPos || k == gChanClosed || k == gChanDrained {
